@@ -1,5 +1,6 @@
 import AiutiVerif.Core.Wire
 import AiutiVerif.Bridge.Model
+import AiutiVerif.Bridge.CloseModel
 /-! Driver glue: replay a recorded bridge trace. -/
 namespace AiutiVerif.Bridge
 open AiutiVerif.Wire
@@ -36,5 +37,45 @@ def drive (fs : List (String × String)) : String :=
             " expected=" ++ showNats (expected c)
         | none => "reject ?"
   | _, _, _ => "bad-op"
+
+namespace Close
+
+def decLabel (s : String) : Option Label :=
+  match s.splitOn ":" with
+  | ["p", x] => x.toNat?.map Label.put
+  | ["dr", x] => x.toNat?.map Label.drop
+  | ["se"] => some .srcEnd
+  | ["sf"] => some .srcFail
+  | ["pd"] => some .putDone
+  | ["we"] => some .workerExit
+  | ["g", x] => x.toNat?.map Label.get
+  | ["gd"] => some .getDone
+  | ["j", r] => r.toNat?.map fun r => Label.join (r != 0)
+  | ["cl"] => some .close
+  | _ => none
+
+/-- `bridgec src=1,0,2 fail=- labels=p:1;g:1;cl;dr:0;pd;we`: the trace of a consumer that may give up early.
+Answers `ok consumed=… nput=… closed=<0|1> exited=<0|1>` or `reject k`. -/
+def drive (fs : List (String × String)) : String :=
+  match getNats fs "src", get fs "fail", get fs "labels" with
+  | some src, some failS, some ls =>
+    let failAt : Option Nat := if failS == "-" then none else failS.toNat?
+    let labels? : Option (List Label) := if ls.isEmpty then some [] else (ls.splitOn ";").mapM decLabel
+    match labels? with
+    | none => "bad-op"
+    | some labels =>
+      let c : Cfg := { src := src, failAt := failAt }
+      match firstReject c {} labels 0 with
+      | some k => s!"reject {k}"
+      | none =>
+        match accepts c {} labels with
+        | some s => "ok consumed=" ++ showNats s.consumed ++ s!" nput={s.nput}" ++
+            " closed=" ++ (match s.cpc with | .closed => "1" | _ => "0") ++
+            " exited=" ++ (match s.ppc with | .exited _ => "1" | _ => "0") ++
+            " expected=" ++ showNats (expected c)
+        | none => "reject ?"
+  | _, _, _ => "bad-op"
+
+end Close
 
 end AiutiVerif.Bridge
